@@ -204,3 +204,16 @@ with seek_rank_ch (k : key) (d' : nat) (b : N) (c : children) : nat :=
 (* the leaf a forward iteration from lower bound lo starts at *)
 Definition seek_first (lo : key) (o : option art) : option key :=
   match o with Some t => nth_error (inorder t) (seek_rank lo 0 t) | None => None end.
+
+(* Iterator.init: a bounded iteration walks the leaves from the seek position of the lower bound (or the first leaf)
+   up to, not including, the seek position of the upper bound (or the end); nothing when the positions coincide or
+   cross.  IterReverse walks the same leaves backwards. *)
+Definition art_range (t : art) (lo hi : key) : list key :=
+  let rl := match lo with [] => 0 | _ => seek_rank lo 0 t end in
+  let rh := match hi with [] => size t | _ => seek_rank hi 0 t end in
+  firstn (rh - rl) (skipn rl (inorder t)).
+Definition range_leaves (o : option art) (rv : bool) (lo hi : key) : list key :=
+  match o with
+  | Some t => if rv then rev (art_range t lo hi) else art_range t lo hi
+  | None => []
+  end.
